@@ -276,6 +276,33 @@ func runC15(c *core.Ctx) {
 		{[]string{"unique", "le=1"}, []float64{0.5, 0.5}},
 		{[]string{"unique", "ge=3"}, []bool{true, true}},
 	}
+	// exist takes a message like every other rule; on a field it has nothing to descend into (a scalar, a slice of
+	// scalars) the library answers with a clause of its own: if it does, that clause follows the same message rule
+	nonStr = append(nonStr, nv{[]string{"exist"}, "x"}, nv{[]string{"exist"}, int64(-4)}, nv{[]string{"exist"}, map[string]int{"k": 1}})
+	for i := range nonStr {
+		if len(nonStr[i].rules) > 1 {
+			nonStr[i].rules = append(nonStr[i].rules, "exist")
+		}
+	}
+	for _, x := range nonStr {
+		for _, cr := range []string{drive.StructRM, drive.StructCtx, drive.StructTag} {
+			out, ok := drive.Carry(cr, reflect.ValueOf(x.v), "exist")
+			if !ok || out.Nil || out.Panic != "" || !c.Mine(len(cr)) {
+				continue
+			}
+			if cls := clause.Parse(out.Err); len(cls) == 1 && cls[0].Kind == clause.Input {
+				res.Count("default_clauses_checked")
+				bad := cls[0].Text == "" || cls[0].Label != clause.LabelEn
+				for _, m := range c15Msgs {
+					bad = bad || cls[0].Text == m
+				}
+				if bad {
+					res.Violate("C15|message|exist|default-wording|"+cr, fmt.Sprintf("%s: exist (no message) on %T %v returned %s; want an explain:-labelled non-empty default text", cr, x.v, x.v, out),
+						map[string]string{"carrier": cr, "rule": "exist", "value": fmt.Sprintf("%T %v", x.v, x.v), "library_returned": out.String()})
+				}
+			}
+		}
+	}
 	for _, x := range nonStr {
 		for _, r := range x.rules {
 			for _, msg := range c15Msgs {
